@@ -92,8 +92,16 @@ func (g *G) props(scope int, cfg *Cfg) []ref.Prop {
 			if n == 3 {
 				n = 3 + t.Int(6)
 			}
+			first := len(out)
 			for i := 0; i < n; i++ {
 				out = append(out, g.propValue(d, false))
+			}
+			if n >= 2 && t.Bool(1, 10) {
+				// two different keys with the same 32-bit hash (see collide.go)
+				i, j := first+t.Int(n), first+t.Int(n)
+				if i != j {
+					out[i].K, out[j].K, _ = g.Colliding()
+				}
 			}
 		case 0x0B:
 			n := t.Pick(4, 3, 1)
@@ -166,6 +174,16 @@ func Foreign(t *sim.Tape, a *ref.AP, n int) int {
 		added++
 	}
 	return added
+}
+
+// collideFilters gives two filters of the packet names with the same 32-bit hash.
+func (g *G) collideFilters(a *ref.AP) {
+	if n := len(a.Filters); n >= 2 && g.T.Bool(1, 12) {
+		i, j := g.T.Int(n), g.T.Int(n)
+		if i != j {
+			a.Filters[i].Name, a.Filters[j].Name, _ = g.Colliding()
+		}
+	}
 }
 
 // Packet draws one abstract packet.
@@ -340,6 +358,7 @@ func (g *G) ofType(typ byte, cfg *Cfg) *ref.AP {
 			}
 			a.Filters = append(a.Filters, f)
 		}
+		g.collideFilters(a)
 	case ref.Unsubscribe:
 		a.PacketID = g.U16()
 		a.Props = g.props(ref.Unsubscribe, cfg)
@@ -354,6 +373,7 @@ func (g *G) ofType(typ byte, cfg *Cfg) *ref.AP {
 			}
 			a.Filters = append(a.Filters, f)
 		}
+		g.collideFilters(a)
 	case ref.SubAck, ref.UnsubAck:
 		a.PacketID = g.U16()
 		a.Props = g.props(int(typ), cfg)
